@@ -22,7 +22,9 @@ RULE = (
     "replaced by a missing / misspelt / other-kind name, or the path cut at a manager - or (iii) the request formed by "
     "a registered action type for an existing or missing component (ActionManager.form_request). Every probe is applied "
     "with Simulation.apply_request while an observe-only tracer records where RequestManager.__call__ returned, and the "
-    "whole simulation's normalised describe_state is compared before/after. Non-trivial = a probe refused or unreachable "
+    "whole simulation's normalised describe_state is compared before/after; each rule on the path is also judged from the "
+    "raw state of the component it guards (a rule that is not satisfied must stop the request; an action's request must "
+    "name the node its parameters name). Non-trivial = a probe refused or unreachable "
     "at depth >= 2 in a non-initial state; distinct by (path template, mutation kind, depth, return point)."
 )
 ASSUMPTIONS = [
@@ -291,6 +293,12 @@ def run_case(case: Dict) -> CaseResult:
                     if len(req) == len(base):  # cutting nothing: would leave a leaf without arguments
                         req = base[:-1]
                     known_args = True
+        # the permission rules on the path judged from the raw state of the components they guard (reqtrace.truth:
+        # the rules as documented, never the validator objects)
+        try:
+            t_allowed, t_why, t_depth, t_detail = reqtrace.truth_run(sim._request_manager, list(req), {})
+        except Exception:
+            t_allowed, t_why, t_depth, t_detail = True, "n/a", 0, None
         before = state_of(sim)
         reqtrace.start()
         raised = None
@@ -338,6 +346,22 @@ def run_case(case: Dict) -> CaseResult:
                             f"probe#{j} request {req} was stopped by {rkind} at depth {depth_ret} but describe_state changed")
             if depth_ret >= 2 and non_initial:
                 nt_keys.add((tmpl, mut, depth_ret, rkind))
+        if t_why == "refused" and rkind in ("leaf", "delegate"):
+            # by the documented meaning of the rule the request had to be refused, yet it reached a handler
+            if resp.status in ("success", "pending") or before != after:
+                res.violate(f"rule-not-enforced:{t_detail}:{resp.status}",
+                            f"probe#{j} request {req}: rule {t_detail} at depth {t_depth} is not satisfied by the component's state, "
+                            f"yet the request reached its handler and was answered {resp.status}{' and changed state' if before != after else ''}")
+        if t_allowed and rkind == "refused" and kind == "action":
+            res.violate(f"refused-though-rules-satisfied:{tmpl}:{detail}",
+                        f"probe#{j} {tmpl} request {req}: refused by {detail} at depth {depth_ret} although every rule on the path is "
+                        f"satisfied by the components' own state")
+        if kind == "action" and act != "do-nothing":
+            named = opts.get("node_name") or opts.get("target_router") or opts.get("target_nodename") or opts.get(
+                "target_firewall_nodename") or opts.get("source_node")
+            if named is not None and named not in req:
+                res.violate(f"action-request-does-not-address-named-node:{tmpl}",
+                            f"probe#{j} {tmpl} {opts}: the formed request {req} does not name node {named!r}")
         if kind == "raw":
             if resp.status in ("success", "pending"):
                 res.violate(f"deleted-folder-answered-{resp.status}:{tmpl}",
